@@ -258,6 +258,12 @@ CONTAINER_CASES = [
     ("B.dict-ctor-pairs", "lambda B, anp, p: (lambda d: d['u'] * d['v'] + d['v'] * 3)(B.dict([('v', p[0] * 2), ('u', p[1])]))", "(S(), S())"),
     ("unused-leaf", "lambda B, anp, p: p[0] * 3", "(S(), S(2), {'k': S()})"),
     ("returns-container", "lambda B, anp, p: B.tuple((p[0] * p[1], [p[1] * 2]))[1][0] * p[0]", "(S(), S())"),
+    # constructors given traced AND constant entries (the result is still one traced container)
+    ("B.dict-ctor mixed const", "lambda B, anp, p: (lambda d: d['u'] * d['c'] + d['u'] * d['u'])(B.dict({'c': Kc(3), 'u': p[0] * p[1]}))", "(S(), S())"),
+    ("B.dict-ctor mixed returned", "lambda B, anp, p: sum(v * (i + 2) for i, v in enumerate(B.dict({'a': p[0] * 2, 'k': Kc(5), 'b': p[1]}).values()))", "(S(), S())"),
+    ("B.list-ctor mixed const", "lambda B, anp, p: (lambda q: q[0] * q[1] + q[2] * q[0])(B.list([p[0], Kc(4), p[1] * p[0]]))", "[S(), S()]"),
+    ("B.tuple-ctor mixed const", "lambda B, anp, p: (lambda q: q[0] * q[1] + q[2])(B.tuple((Kc(2), p[0] * p[1], p[1])))", "(S(), S())"),
+    ("dict.get present/absent", "lambda B, anp, p: p.get('a', Kc(7)) * 3 + p.get('zz', Kc(5)) * p['b'] + p.get('b') * p.get('b')", "{'a': S(), 'b': S()}"),
     # dict keys that are integers (not positions): negative, >= len, non-contiguous
     ("dict-int-keys", "lambda B, anp, p: p[1] * 2 + p[3] * p[1] * 5", "{1: S(), 3: S()}"),
     ("dict-negative-int-keys", "lambda B, anp, p: p[-1] * 2 + p[0] * 3 + p[-1] * p[0]", "{-1: S(), 0: S()}"),
@@ -378,6 +384,77 @@ def jax_like_tangent(Sx, p):
     return mk(p)
 
 
+def run_float_leaves(rep):
+    """container programs in floats at SPECIAL leaf values (exactly 0.0, -0.0, nan-free): value and gradient must not depend on the truth value of a leaf"""
+    import numpy as onp
+
+    import autograd.numpy as anp
+    from autograd import grad
+    from autograd.core import make_vjp
+    progs = {
+        "dict.get zero leaf": (lambda p: p.get("a", 7.0) * 3.0 + p["b"], {"a": 0.0, "b": 2.0}, {"a": 3.0, "b": 1.0}, 2.0),
+        "dict.get zero array leaf": (lambda p: anp.sum(p.get("a", onp.ones(2)) * onp.array([3.0, 5.0])) + p["b"], {"a": onp.zeros(2), "b": 2.0}, {"a": onp.array([3.0, 5.0]), "b": 1.0}, 2.0),
+        "dict.get default used": (lambda p: p.get("zz", 7.0) * p["b"], {"a": 0.0, "b": 2.0}, {"a": 0.0, "b": 7.0}, 14.0),
+        "list zero leaf": (lambda p: p[0] * 3.0 + p[1] * p[1], [0.0, 2.0], [3.0, 4.0], 4.0),
+        "tuple in-test on leaf": (lambda p: (p[0] if len(p) == 2 else p[1]) * 5.0, (0.0, 1.0), (5.0, 0.0), 0.0),
+        "dict items zero leaf": (lambda p: sum(v * (i + 2.0) for i, (k, v) in enumerate(sorted(p.items()))), {"a": 0.0, "b": 0.0}, {"a": 2.0, "b": 3.0}, 0.0),
+    }
+    # container-VALUED functions built by the traced constructors from traced AND constant entries: the value handed back is a plain container
+    # without tracer objects, the VJP routes each cotangent leaf to the entry it belongs to, the JVP has the output's structure
+    import autograd.builtins as B
+    from autograd.core import make_jvp
+    from autograd.tracer import isbox
+    outs = {
+        "dict ctor mixed -> dict": (lambda x: B.dict({"a": x * 2.0, "k": 5.0, "b": x * x}), 3.0, {"a": 1.0, "k": 100.0, "b": 10.0}, 2.0 + 60.0),
+        "dict ctor kwargs mixed -> dict": (lambda x: B.dict(a=x * 2.0, k=5.0), 3.0, {"a": 1.0, "k": 100.0}, 2.0),
+        "list ctor mixed -> list": (lambda x: B.list([x * 2.0, 5.0, x * x]), 3.0, [1.0, 100.0, 10.0], 62.0),
+        "tuple ctor mixed -> tuple": (lambda x: B.tuple((5.0, x * 3.0)), 3.0, (100.0, 1.0), 3.0),
+        "dict ctor all const but one nested": (lambda x: B.dict({"c": 1.0, "n": B.list([2.0, x * 4.0])}), 3.0, {"c": 7.0, "n": [9.0, 1.0]}, 4.0),
+    }
+    for lab, (f, x, g, dexp) in outs.items():
+        rep.bounded_case((lab, "K-container-output"))
+        try:
+            vjp, val = make_vjp(f, x)
+
+            def leaves(c):
+                if isinstance(c, dict):
+                    return [l for k_ in c for l in leaves(c[k_])]
+                if isinstance(c, (list, tuple)):
+                    return [l for e_ in c for l in leaves(e_)]
+                return [c]
+            leak = any(isbox(l) for l in leaves(val))
+            d = vjp(g)
+            try:
+                _, tang = make_jvp(f, x)(1.0)
+                okt = type(tang) is type(val) and len(leaves(tang)) == len(leaves(val))
+            except NotImplementedError:      # no forward rule for this constructor: a loud failure is allowed
+                tang, okt = "raises NotImplementedError", True
+            ok = (not leak) and abs(float(d) - dexp) < 1e-12 and okt
+            det = f"value {val!r}{' CONTAINS TRACER OBJECTS' if leak else ''}; vjp(g) = {d!r} (expected {dexp}); tangent {tang!r}"
+        except Exception as e:
+            ok, det = False, f"raised {type(e).__name__}: {str(e)[:100]}"
+        if not ok:
+            rep.violation("E4:K-container-output", lab, f"{lab}: {det}", replay=dict(module="contracts.containers", label="float-leaves:" + lab), witness=True)
+    for lab, (f, x, gexp, vexp) in progs.items():
+        rep.bounded_case((lab, "K-float-leaves"))
+        try:
+            vjp, val = make_vjp(f, x)
+            g = grad(f)(x)
+
+            def same(a, b):
+                if isinstance(b, dict):
+                    return isinstance(a, dict) and set(a) == set(b) and all(same(a[k], b[k]) for k in b)
+                if isinstance(b, (list, tuple)):
+                    return type(a) is type(b) and len(a) == len(b) and all(same(p_, q_) for p_, q_ in zip(a, b))
+                return onp.shape(a) == onp.shape(b) and onp.allclose(a, b, rtol=0, atol=1e-12)
+            ok = abs(float(val) - vexp) < 1e-12 and same(g, gexp)
+            det = f"value {val!r} (expected {vexp}), gradient {g!r} (expected {gexp!r})"
+        except Exception as e:
+            ok, det = False, f"raised {type(e).__name__}: {str(e)[:100]}"
+        if not ok:
+            rep.violation("E4:K-float-leaves", lab, f"{lab}: {det}", replay=dict(module="contracts.containers", label="float-leaves:" + lab), witness=True)
+
+
 def run_flatten_layout(rep):
     """flatten/unflatten are mutually inverse and commute with grad whatever the MEMORY layout of the leaves (C, Fortran, transposed views, strided)."""
     import numpy as onp
@@ -422,6 +499,13 @@ def run_exact(rep, tier, clauses=("K-value", "K-structure", "K-leafwise", "K-jvp
 
 
 def replay(spec):
+    if "label" in spec and spec["label"].startswith("float-leaves:"):
+        from vlib.common import Report
+        r = Report("replay", "quick", "other", "replay")
+        r.known = {"findings": []}
+        run_float_leaves(r)
+        bad = [v for v in r.violations if "float-leaves:" + v["case"] == spec["label"]]
+        return (not bad), (bad[0]["what"] if bad else "holds"), "value and leaf-wise gradient of the container program"
     if "label" in spec and spec["label"].startswith("flatten-layout"):
         from vlib.common import Report
         r = Report("replay", "quick", "other", "replay")
